@@ -2,6 +2,7 @@ package scen
 
 import (
 	"fmt"
+	"math/rand"
 	"sync"
 	"time"
 
@@ -69,6 +70,14 @@ func logTerm(l []gocbcore.FailoverEntry) gal.Term {
 		ts[i] = gal.Tuple(gal.N(uint64(e.VbUUID)), gal.N(uint64(e.SeqNo)))
 	}
 	return gal.List(ts)
+}
+
+func init() {
+	HistMakers["c08"] = mkMaker(func(p *SParams, rng *rand.Rand) {
+		p.PRoll, p.PSys, p.WSave, p.WCrash, p.WEnd, p.PAckInOrd = 0.5, 0.3, 2.5, 0.8, 0.8, 0.5
+		p.MaxVbs = 1 + rng.Intn(3)
+		p.MaxOps = 20 + rng.Intn(40)
+	})
 }
 
 func runC08(c *Ctx) {
@@ -216,10 +225,13 @@ func runC08(c *Ctx) {
 					}
 					cas := uint64(1700000000000000000)
 					key := fmt.Sprintf("k%d", seq)
-					switch rng.Intn(3) {
+					switch rng.Intn(4) {
 					case 0:
 						_ = st.Deletion(simnode.Deletion{SeqNo: seq, Cas: cas, Key: []byte(key)})
 						evs = append(evs, gal.App("Doc", "KDel", SItem{Seq: seq, Cas: cas, Key: []byte(key)}.term()))
+					case 1:
+						_ = st.Expiration(simnode.Expiration{SeqNo: seq, Cas: cas, Key: []byte(key)})
+						evs = append(evs, gal.App("Doc", "KExp", SItem{Seq: seq, Cas: cas, Key: []byte(key)}.term()))
 					default:
 						_ = st.Mutation(simnode.Mutation{SeqNo: seq, Cas: cas, Key: []byte(key), Value: []byte("{}")})
 						evs = append(evs, gal.App("Doc", "KMut", SItem{Seq: seq, Cas: cas, Key: []byte(key)}.term()))
@@ -273,6 +285,16 @@ func runC08(c *Ctx) {
 	im := []string{"Base.Bytes", "Model.Stream", "Model.Client", "Corr.CorrStream", "Corr.CorrC08"}
 	c.Emit("open", "decoded DCP_STREAM_REQ of the real client.OpenStream vs Client.open_stream", im, "offset * sanswer * list (N * N) * sanswer * (list sreq * bool)", "chk_open", oc, or_, 200)
 	c.Emit("catchup", "document events reaching the listener of a real observer vs obs_run", im, "N * N * option N * list ev * list (N * offset)", "chk_catchup", cc, cr, 200)
+	// the whole stream around rollbacks: histories in which many stream requests are first answered with a rollback (at start-up
+	// and at reopens), with seqno-advanced / system events in the replay, saves, crashes and restarts
+	runStreamHistories(c, "c08", c.Pick(160, 2500), "c08", func(h *SHistory) bool {
+		for _, op := range h.Ops {
+			if (op.Sv != nil && len(op.Sv.Roll) > 0) || op.Roll {
+				return true
+			}
+		}
+		return false
+	}, monitorStream("C08"), ignoredMonitor)
 }
 
 func sortU64Desc(a []uint64) {
